@@ -103,6 +103,28 @@ fn is_reference_key(kind: ElementKind, key: &str) -> bool {
     )
 }
 
+/// Whether a constraint the index answers is content a field mask can hide.
+///
+/// Everything [`column_of`] pushes to an index except what selects rather than
+/// describes: the id, the lifecycle state that ordinary recall filters on
+/// anyway, and the Schema symbol an element is typed by — which is what a
+/// Grant's own scope is written in, and which a masked reader may still
+/// select by.
+fn is_maskable_key(kind: ElementKind, key: &str) -> bool {
+    !matches!(
+        (kind, key),
+        (_, "id")
+            | (_, "state")
+            | (_, "status")
+            | (ElementKind::Concept, "type")
+            | (ElementKind::Concept, "schema_ref")
+            | (ElementKind::Evidence, "evidence_class")
+            | (ElementKind::Evidence, "class")
+            | (ElementKind::Activity, "activity_class")
+            | (ElementKind::Activity, "class")
+    )
+}
+
 /// Whether a matcher key names a schema symbol, which must be resolved.
 fn is_symbol_key(kind: ElementKind, key: &str) -> bool {
     matches!(
@@ -121,6 +143,9 @@ impl Context<'_> {
     ) -> Result<Solutions, KipError> {
         let mut filters = vec![eq_field("space", Fv::Text(self.space.clone()))];
         let mut post: Vec<(String, Slot)> = Vec::new();
+        // Content constraints the index answers, to be re-checked against what
+        // this caller may see of each candidate.
+        let mut indexed: Vec<String> = Vec::new();
         let mut constrains_state = false;
         let mut by_id: Option<ElementId> = None;
 
@@ -163,6 +188,9 @@ impl Context<'_> {
                 (Slot::Value(value), Some(column)) => {
                     let text = self.matcher_text(kind, key, value)?;
                     filters.push(eq_field(column, Fv::Text(text)));
+                    if is_maskable_key(kind, key) {
+                        indexed.push(view_key(kind, key));
+                    }
                 }
                 _ => post.push((key.clone(), slot)),
             }
@@ -214,6 +242,19 @@ impl Context<'_> {
             // matcher reading the unredacted row would let a masked field be
             // probed through which rows come back (§109).
             let rendered = self.view_of(id);
+            // The index matched the stored row. A member the caller's mask
+            // removed must not decide membership either, or `{stance:
+            // "support"}` tells a reader who may not see `stance` which
+            // Assertions support — the same probe §109 closes for FILTER.
+            if !indexed.is_empty() {
+                let stored = crate::view::render(&element);
+                if indexed
+                    .iter()
+                    .any(|path| read_view(&stored, path) != read_view(&rendered, path))
+                {
+                    continue;
+                }
+            }
             let mut row = vec![Binding::Element(id)];
             row.resize(vars.len(), Binding::Null);
 
